@@ -68,15 +68,6 @@ Theorem C11_eventual_refuted_small_buffers :
 Proof. exact circular_wait_small_buffers. Qed.
 
 (* ---- non-vacuity *)
-Definition nv_cfg := mkCfg 8 3 1 2.
-Definition nv_a := mkItem 1 7 1.      (* xid 1, branch 7, resource 1 *)
-Definition nv_b := mkItem 2 7 1.      (* same branch id under another xid: never committed *)
-Definition nv_c := mkItem 1 8 2.      (* same xid, another branch, another resource *)
-Definition nv_evs :=
-  [Accept nv_a; Accept nv_c; Recv; Recv; Submit; Start 1;
-   WStep 0 ConnFail; WStep 0 Ok; WStep 0 Ok; WStep 0 DelFail].
-Definition nv_s := run nv_cfg nv_evs (init [nv_a; nv_b; nv_c] [1%N; 2%N]).
-
 Example C11_answer_nonvacuous : length (answers nv_s) = 2.
 Proof. vm_compute. reflexivity. Qed.
 
